@@ -5,6 +5,7 @@ package c09
 
 import (
 	"fmt"
+	"google.golang.org/protobuf/types/known/structpb"
 	"math/rand"
 	"sort"
 	"strings"
@@ -72,6 +73,20 @@ func run(c *vk.Ctx) {
 		sem.RunCases(c, s, fmt.Sprintf("srv%d", di), n, gen.Options{HierarchyEvery: 3}, 0, 1, func(i int, r *rand.Rand, p *sem.Prepared, _ []*openfgav1.TupleKey) {
 			oneCase(c, i, r, p, cs)
 		})
+		// a directed fan-out case: one relation with 40 userset tuples, members sitting behind late ones —
+		// a read cut short by a cancellation leaves a long unread tail that must not be forgotten
+		for rep := 0; rep < c.Pick(2, 8); rep++ {
+			fr := c.Rand(fmt.Sprintf("fat-%d-%d", di, rep))
+			fc := fatCase(fmt.Sprintf("C09-fat-%d-%d", di, rep))
+			if store, err := s.CreateStore(fc.Name); err == nil {
+				if fp, err := sem.Install(c, s, fc, store, fc.Tuples); err == nil {
+					oneCase(c, 100000+rep, fr, fp, cs)
+					c.Count("fan_out_cases", 1)
+				} else {
+					c.HarnessError("fat case: %v", err)
+				}
+			}
+		}
 		for k, v := range oc.Stats() {
 			c.Count("cache_"+d.n+"_"+k, int(v))
 		}
@@ -251,4 +266,27 @@ func report(c *vk.Ctx, p *sem.Prepared, cs cachedSrv, rc *ref.Case, api string, 
 	}
 	c.Violation(f, fmt.Sprintf("%s|%s|%s|%s", api, cs.name, v, k), fmt.Sprintf("on %s (iterator caches on), %s(%s#%s@%s, ctx=%s) answered %s; reference %s [%s]", cs.name, api, rq.Object, rq.Relation, rq.User, gen.CtxString(rq.Ctx), o, k, v),
 		witness(p, cs.name, rq, k.String(), o.String()))
+}
+
+// fatCase is doc:d1#viewer granted to 40 groups (usersets) whose members sit in groups late in the list.
+func fatCase(name string) *gen.Case {
+	ref := func(t, rel string) *openfgav1.RelationReference { return gen.Ref(t, rel, false, "") }
+	this := &openfgav1.Userset{Userset: &openfgav1.Userset_This{This: &openfgav1.DirectUserset{}}}
+	group := &openfgav1.TypeDefinition{Type: "group", Relations: map[string]*openfgav1.Userset{"member": this},
+		Metadata: &openfgav1.Metadata{Relations: map[string]*openfgav1.RelationMetadata{"member": {DirectlyRelatedUserTypes: []*openfgav1.RelationReference{ref("user", "")}}}}}
+	doc := &openfgav1.TypeDefinition{Type: "doc", Relations: map[string]*openfgav1.Userset{"viewer": this},
+		Metadata: &openfgav1.Metadata{Relations: map[string]*openfgav1.RelationMetadata{"viewer": {DirectlyRelatedUserTypes: []*openfgav1.RelationReference{ref("group", "member"), ref("user", "")}}}}}
+	m := &openfgav1.AuthorizationModel{SchemaVersion: "1.1", TypeDefinitions: []*openfgav1.TypeDefinition{{Type: "user"}, group, doc}}
+	ids := map[string][]string{"user": {"t1", "t2", "t3", "x"}, "doc": {"d1"}, "group": nil, "folder": nil}
+	gc := &gen.Case{Name: name, Model: m, Permissive: m, Features: map[string]bool{"fan-out": true, "userset": true}, IDs: ids, Contexts: []*structpb.Struct{nil}}
+	for i := 0; i < 40; i++ {
+		g := fmt.Sprintf("g%02d", i)
+		ids["group"] = append(ids["group"], g)
+		gc.Tuples = append(gc.Tuples, &openfgav1.TupleKey{Object: "doc:d1", Relation: "viewer", User: "group:" + g + "#member"})
+	}
+	for u, g := range map[string]string{"t1": "g30", "t2": "g39", "t3": "g05"} {
+		gc.Tuples = append(gc.Tuples, &openfgav1.TupleKey{Object: "group:" + g, Relation: "member", User: "user:" + u})
+	}
+	sort.Slice(gc.Tuples, func(i, j int) bool { return gen.TupleString(gc.Tuples[i]) < gen.TupleString(gc.Tuples[j]) })
+	return gc
 }
